@@ -43,6 +43,10 @@ type oracle struct {
 	lastDelayedLen int64
 	sizeRel        map[string]bool
 
+	// source references first met as the value of a framing-named key of a
+	// plain dictionary (candidates for "reachable only through that key")
+	framingOnly map[pdf.Reference]string
+
 	inParms bool   // comparing a /DecodeParms entry (as opposed to /Filter)
 	parms   string // non-empty while inside a /DecodeParms dictionary: its form
 	cls     map[string]bool
@@ -259,6 +263,22 @@ func (o *oracle) cmpDict(sv gen.O, td pdf.Dict, path string, stream bool) error 
 			return o.fail(path, "key %q is missing in the target", key)
 		}
 		sub := path + "/" + string(key)
+		if !stream && isFramingKey(string(key)) {
+			o.cls["dict/plain-dict-with-framing-key"] = true
+			if key == "Length" || key == "Filter" || key == "DecodeParms" || key == "Type" {
+				o.cls["dict/plain-dict-with-key-"+string(key)] = true
+			}
+			if kv.V.T == "ref" {
+				o.cls["dict/indirect-value-under-framing-key"] = true
+				s := mkRef(kv.V.N, kv.V.G)
+				if _, known := o.f[s]; !known && o.m.final(s) != nil {
+					if o.framingOnly == nil {
+						o.framingOnly = map[pdf.Reference]string{}
+					}
+					o.framingOnly[s] = string(key)
+				}
+			}
+		}
 		var err error
 		if stream && (key == "Filter" || key == "DecodeParms") {
 			o.inParms = key == "DecodeParms"
@@ -608,6 +628,14 @@ func (o *oracle) classify() {
 	for s, n := range o.hits {
 		if n > 0 && o.m.final(s) != nil {
 			o.cls["shared-object"] = true
+		}
+	}
+	for s, key := range o.framingOnly {
+		if o.hits[s] == 0 {
+			o.cls["dict/indirect-value-only-under-framing-key"] = true
+			if key == "Length" {
+				o.cls["dict/indirect-value-only-under-key-Length"] = true
+			}
 		}
 	}
 }
